@@ -39,6 +39,11 @@ CHECKS.update({
          "Files with nil/empty/large records under all four compression types are decoded by the repository's Kaitai-generated reader and compared record by record (count, nil flag, stored bytes) with the native reader and an independent parser; compression codes are checked against the enum in recordio_v4.ksy.",
          "the generated Go reader stands for the schema (no kaitai-struct-compiler offline)", "§3 C20", "E1"),
 })
+CHECKS.update({
+ "C11": ("fault_enumeration", "fault injection: exhaustive single faults at every input-iterator and output-writer position of the real merger; hook-level and RLIMIT_FSIZE (kernel EFBIG) faults inside SimpleDB flush/compaction in sub-processes; oracle = fault-free output / reference map",
+         "(a) every Next position of every input (3 failure variants) and every WriteNext position of generated merges is failed once against the real Merge/MergeCompact/MergeCompactIterator; (b) flushes and compaction cycles of a real SimpleDB run in sub-processes with a failing k-th data/index append, a failing input record or a file-size limit that makes write(2) fail at a chosen byte; success may only be reported for complete output, after a reported compaction error the same and a fresh process must still read the model.",
+         "hook failures are clean failures; kernel faults only through RLIMIT_FSIZE (EFBIG); a failed flush ends in log.Panicf, what it leaves on disk is judged by C02", "§3 C11", "E6"),
+})
 NOT_YET = {}
 props = [json.loads(l) for l in open(os.path.join(ROOT, "properties.jsonl"))]
 hooks_commits = []
@@ -81,6 +86,7 @@ m = {
  },
  "engines": [
    {"name": "E1", "path": "/verif/internal/props", "kind_free_text": "reference-model monitors shadowing real API calls, seeded case lists, child processes"},
+   {"name": "E6", "path": "/verif/internal/props/c11.go", "kind_free_text": "fault injection: failing iterators/writers (public interfaces + tag-guarded hooks) and RLIMIT_FSIZE kernel-level write failures in sub-processes"},
  ],
  "checks": checks,
  "not_applicable": na,
